@@ -32,7 +32,7 @@ func init() {
 		Tech:   "static analysis: must-release ownership dataflow on SSA (all CFG paths incl. error exits) + must-pass-through close-chain rules",
 		NeedU1: true,
 		NeedU2: true,
-		Rules:  []func(*Ctx){deferredCloseSparesReturnedRule("C09", pkgApp, pkgInt), countersCannotWrapRule("C09", 2, pkgApp, pkgCache), ruleC16EveryCloseReleasesOneUsage, ruleC09SimpleCacheStoresWhatItIsGiven, ruleC09KeyOwnership, ruleC09HandoutRelease, ruleC09EntryWritten, ruleC09DisplacedEntry, ruleC09CloseChains, ruleC16TeardownWaits, ruleC16SingleTeardownPath, ruleC16GetAtomic, ruleC08EveryHandoutCounted, ruleC08RefcountProtocol, ruleC08StorageDoesNotRelease, ruleC09KeyCacheNeverDeletes, ruleC08SharedCacheNotClosedBySession, ruleC12TeardownOnce, ruleC20DisabledMeansNever, ruleC15CallbackExactlyOnce, ruleC15RemovalNotifies, ruleC15ExpiryEvicts, ruleC15RemoveUnlinks, ruleC15RelinkIsAMove, ruleC15ElementRecorded, ruleC15SegmentMoveConserves, ruleC15RegistrationFollowsSegment, ruleC18IDsAreDataNotPatterns, ruleC19CloseOnExit, ruleC02CryptoKeyAsGiven, ruleC08SessionCloseOnlyClosesEncryption, ruleC15ListHandleBelongsToItsItem, ruleC20CacheSizedByOwnPolicy},
+		Rules:  []func(*Ctx){deferredCloseSparesReturnedRule("C09", pkgApp, pkgInt), countersCannotWrapRule("C09", 2, pkgApp, pkgCache), ruleC16EveryCloseReleasesOneUsage, ruleC09SimpleCacheStoresWhatItIsGiven, ruleC09KeyOwnership, ruleC09HandoutRelease, ruleC09EntryWritten, ruleC09DisplacedEntry, ruleC09CloseChains, ruleC16TeardownWaits, ruleC16SingleTeardownPath, ruleC16GetAtomic, ruleC08EveryHandoutCounted, ruleC08RefcountProtocol, ruleC08StorageDoesNotRelease, ruleC09KeyCacheNeverDeletes, ruleC08SharedCacheNotClosedBySession, ruleC12TeardownOnce, ruleC20DisabledMeansNever, ruleC15CallbackExactlyOnce, ruleC15RemovalNotifies, ruleC15ExpiryEvicts, ruleC15RemoveUnlinks, ruleC15RelinkIsAMove, ruleC15ElementRecorded, ruleC15SegmentMoveConserves, ruleC15RegistrationFollowsSegment, ruleC18IDsAreDataNotPatterns, ruleC19CloseOnExit, ruleC02CryptoKeyAsGiven, ruleC08SessionCloseOnlyClosesEncryption, ruleC15ListHandleBelongsToItsItem, ruleC20CacheSizedByOwnPolicy, ruleC15Lock},
 	})
 }
 
